@@ -75,6 +75,12 @@ var (
 	simMes   = []string{"me", "Bot[1]", "gIRC^", "me`"}
 )
 
+// simRealname: realnames, some starting with digits (a hop count precedes them in RPL_WHOREPLY),
+// consisting of digits only, or empty.
+func simRealname(r *rand.Rand) string {
+	return Pick(r, "Real Name", "real", "?", "two  spaces", "", "x y z", "42nd Street Bot", "3 Musketeers fan", "007", "0", "9 9 9", "1")
+}
+
 // caseVar respells a name in a random RFC1459 case variant. nickSafe keeps the result
 // inside the nickname alphabet ('^' has no variant there: '~' is not a nick character).
 func caseVar(r *rand.Rand, s string, nickSafe bool) string {
@@ -295,7 +301,7 @@ func (s *sim) who(c *simChan, u *simUser) {
 		if c != nil && c.members[u] != nil {
 			flags += c.members[u].syms(s.prof, false)
 		}
-		s.srv("352", s.me.nick, cn, u.ident, u.host, s.serverName, s.nickV(u), flags, strconv.Itoa(s.r.Intn(4))+" "+u.realname)
+		s.srv("352", s.me.nick, cn, u.ident, u.host, s.serverName, s.nickV(u), flags, Pick(s.r, "0", "1", "3", "12", "107", "255")+" "+u.realname)
 		s.cat("who")
 	}
 	if s.visible(u) {
@@ -612,6 +618,24 @@ func (s *sim) step() {
 		s.meJoin()
 		return
 	}
+	canJoin := false
+	for _, c2 := range s.chans {
+		canJoin = canJoin || !c2.in
+	}
+	if (!s.uhNames || canJoin) && r.Intn(25) == 0 {
+		// services give us a vhost/cloak without CHGHOST (396 only): our next own JOIN shows the
+		// new prefix; until then nothing the client tracks changes
+		if r.Intn(2) == 0 {
+			s.me.ident = Pick(r, "~user", "account", "me2")
+		}
+		s.me.host = Pick(r, "user/me", "cloak-"+strconv.Itoa(r.Intn(99))+".example", "203.0.113.7")
+		s.srv("396", s.me.nick, s.me.host, "is now your hidden host")
+		s.cat("own-vhost-silent")
+		if s.uhNames || r.Intn(2) == 0 { // (a NAMES line with userhost-in-names would show the new host at once)
+			s.meJoin()
+		}
+		return
+	}
 	if r.Intn(14) == 0 {
 		s.meJoin()
 		return
@@ -702,7 +726,7 @@ func (s *sim) step() {
 		}
 		if len(cands) == 0 || (len(s.users) < 9 && r.Intn(3) == 0) {
 			u := &simUser{nick: s.freshNick(), ident: Pick(r, "~id", "ident", "u"), host: Pick(r, "h.example", "10.0.0.7", "gateway/web/x"),
-				realname: Pick(r, "Real Name", "real", "?", "two  spaces"), account: Pick(r, "", "", "acct", "Other")}
+				realname: simRealname(r), account: Pick(r, "", "", "acct", "Other")}
 			s.users = append(s.users, u)
 			cands = []*simUser{u}
 		}
@@ -841,7 +865,7 @@ func genConformantN(r *rand.Rand, long bool) Case {
 	s.acctNotify = r.Intn(3) != 0
 	s.prof = modeProfiles[r.Intn(len(modeProfiles))]
 	cfgNick := simMes[r.Intn(len(simMes))]
-	s.me = &simUser{nick: cfgNick, ident: Pick(r, "~user", "user"), host: Pick(r, "my.host.example", "192.0.2.1"), realname: "Real Name", account: Pick(r, "", "myacct")}
+	s.me = &simUser{nick: cfgNick, ident: Pick(r, "~user", "user"), host: Pick(r, "my.host.example", "192.0.2.1"), realname: Pick(r, "Real Name", "1st bot", "007"), account: Pick(r, "", "myacct")}
 	if r.Intn(5) == 0 {
 		s.me.nick = cfgNick + "_" // the server may register us under another nick
 	}
@@ -856,7 +880,7 @@ func genConformantN(r *rand.Rand, long bool) Case {
 	}
 	for i, n := 0, 2+r.Intn(5); i < n; i++ {
 		u := &simUser{nick: s.freshNick(), ident: Pick(r, "~id", "ident", "u"), host: Pick(r, "h.example", "10.0.0.7", "gateway/web/x"),
-			realname: Pick(r, "Real Name", "real", "", "x y z"), account: Pick(r, "", "", "acct", "Other")}
+			realname: simRealname(r), account: Pick(r, "", "", "acct", "Other")}
 		s.users = append(s.users, u)
 		for _, c := range s.chans {
 			if r.Intn(2) == 0 {
